@@ -294,6 +294,7 @@ class Monitor:
             )
 
     def floor(self, name, have, need):
+        self._extra.setdefault("coverage_floors", []).append([name, int(have), int(need)])
         if have < need:
             self.inconclusive.append(f"coverage floor not met: {name}: {have} < {need}")
 
